@@ -1163,6 +1163,28 @@ def load_corpus():
     return out
 
 
+BASELINE = [{"c": 0, "op": "add"}, {"c": 0, "op": "log", "l": 0, "kw": []}, {"c": 0, "op": "end"}]
+
+
+def fresh_problem(trace, mode, kind):
+    """judge the programme in a FRESH interpreter; -> text of the problem of that kind, or None"""
+    import subprocess
+    import sys
+    code = ("import json,sys\nfrom harness import c12\nd=json.load(sys.stdin)\n"
+            "pr,_,_=c12.judge(None,d['trace'],d['mode'])\nprint('RESULT'+json.dumps(pr))\n")
+    try:
+        p = subprocess.run([sys.executable, "-c", code], cwd=core.VERIF, input=json.dumps({"trace": trace, "mode": mode}),
+                           capture_output=True, text=True, timeout=120)
+    except subprocess.TimeoutExpired:
+        return None
+    for line in p.stdout.splitlines():
+        if line.startswith("RESULT"):
+            for k, t in json.loads(line[6:]):
+                if k == kind:
+                    return t
+    return None
+
+
 def evaluate(trace, mode):
     """one programme on the implementation, judged by the specification -> picklable result"""
     problems, r, spec = judge(None, trace, mode)
@@ -1215,9 +1237,18 @@ def run(ctx):
         for kind, text in res["problems"]:
             ctx.stat("problems:" + kind)
             if len(pending[kind]) < 2:
-                small = shrink(trace, mode, {kind}) if len(trace) > 4 else trace
-                pr2, _, _ = judge(ctx, small, mode)
-                text2 = next((t for k2, t in pr2 if k2 == kind), text)
+                # A defect may leave state behind in the PROCESS (a mutated ContextVar default, a global):
+                # then trivial programmes "fail" here but not in a fresh interpreter.  Shrink only while the
+                # trivial programme still passes, and keep a shrunk trace only if it reproduces in a fresh
+                # interpreter (else fall back to the programme as it was found).
+                small = trace
+                if len(trace) > 4 and not judge(ctx, BASELINE, mode)[0]:
+                    cand = shrink(trace, mode, {kind})
+                    if cand is not trace and fresh_problem(cand, mode, kind):
+                        small = cand
+                else:
+                    ctx.stat("shrink_skipped_process_state_contaminated")
+                text2 = fresh_problem(small, mode, kind) or text
                 pending[kind].append(("%s [%s, %s]: %s" % (HEAD[kind], mode, origin, text2),
                                       {"mode": mode, "trace": small, "line": prog_line(small), "kind": kind}))
             else:
